@@ -52,12 +52,15 @@ def sample_libraries(n, seed, depth=40, workers=4):
     return libs, r
 
 
-def cases_of(lib):
-    """LibGen description -> rt/cases.py cases."""
+def cases_of(lib, rows_ok=None, results_ok=None):
+    """LibGen description -> rt/cases.py cases.  With rows_ok/results_ok only the functions a given driver can
+    call are kept (an overload whose base function was dropped becomes a function of its own)."""
     out = []
     names = {}
     for i, f in enumerate(lib["funcs"], 1):
-        if f["kind"] == "overload":
+        if rows_ok is not None and not (all(r in rows_ok for r in f["params"]) and f["result"] in results_ok):
+            continue
+        if f["kind"] == "overload" and f["of"] in names:
             name = names[f["of"]]
         else:
             name = "g%d" % i
@@ -406,3 +409,13 @@ def build(d, lib):
                "lua module")
     return {"shroud_rc": 0, "problems": b.problems, "trace": trace, "extra_traces": extra_traces, "counts": b.counts,
             "files": sorted(os.listdir(out)), "listed": sorted(listed)}
+
+
+def driver_options(lib):
+    """The options of a description that matter to the run-time drivers."""
+    o = lib["opts"]
+    # debug stays on: the drivers find the C and Fortran names in the debug comments (that debug changes comments
+    # only is property C16)
+    return {"debug": True, "doxygen": o["doxygen"], "literalinclude": o["literalinclude"],
+            "show_splicer_comments": o["show_splicer_comments"], "C_line_length": o["line"], "F_line_length": o["line"],
+            "F_CFI": o["F_CFI"]}
